@@ -269,3 +269,51 @@ func AddTimerFunc(d time.Duration, what string, f func()) func() {
 	t := S.addTimer(d, 0, what, f)
 	return func() { t.stopped = true }
 }
+
+
+// RearmTimerChan arms a (new) timer delivering on an existing channel.
+func RearmTimerChan(c *Chan[time.Time], d time.Duration, periodic bool, what string) func() bool {
+	var p time.Duration
+	if periodic {
+		p = d
+	}
+	var created rclock
+	if RaceOn && S.cur != nil {
+		created = S.raceRelease(S.cur)
+	}
+	t := S.addTimer(d, p, what, func() {
+		if c.trySend(Now()) {
+			if RaceOn {
+				c.c.bufVC = append(c.c.bufVC, created)
+				c.c.nsend++
+			}
+			S.hbClockObj(&c.c.obj)
+		}
+	})
+	return func() bool {
+		was := !t.stopped
+		t.stopped = true
+		S.hbClock()
+		return was
+	}
+}
+
+// AfterFuncThread spawns a thread running f when the timer fires; returns a stop function.
+func AfterFuncThread(d time.Duration, what string, f func()) func() bool {
+	s := S
+	var created rclock
+	if RaceOn && s.cur != nil {
+		created = s.raceRelease(s.cur)
+	}
+	t := s.addTimer(d, 0, what, func() {
+		th := s.spawn("timer-func", false, f)
+		if RaceOn {
+			th.rvc = created.copyOf()
+		}
+	})
+	return func() bool {
+		was := !t.stopped
+		t.stopped = true
+		return was
+	}
+}
